@@ -537,3 +537,122 @@ func checkFoundFlag(cx *CheckCtx, sp *ssa.Package) {
 	}
 	cx.count("found_flags", n)
 }
+
+// checkPendingReleased (pending-released): the monitor's tracker marks the step as in flight and hands the
+// wait to a goroutine; every path of that goroutine to its return releases the flag (a call of a method of
+// the monitor that stores false into the in-flight flag, or that store itself, possibly deferred). A path
+// that keeps the flag — "the waiter failed, the transaction may still be alive" — also keeps it when the
+// transaction has expired unseen: the step never sends again and the run never ends.
+func checkPendingReleased(cx *CheckCtx, sp *ssa.Package) {
+	w := cx.W
+	storesFalse := func(f *ssa.Function) bool {
+		if f == nil || f.Blocks == nil {
+			return false
+		}
+		for _, b := range f.Blocks {
+			for _, ins := range b.Instrs {
+				if c, ok := ins.(*ssa.Call); ok {
+					if cal := c.Common().StaticCallee(); cal != nil && cal.Name() == "Store" && cal.Signature.Recv() != nil && strings.HasSuffix(typeName(cal.Signature.Recv().Type()), "atomic.Bool") {
+						if k, isK := c.Common().Args[len(c.Common().Args)-1].(*ssa.Const); isK && k.Value != nil && k.Value.Kind() == constant.Bool && !constant.BoolVal(k.Value) {
+							return true
+						}
+					}
+				}
+			}
+		}
+		return false
+	}
+	isRelease := func(ins ssa.Instruction) bool {
+		var cc *ssa.CallCommon
+		switch v := ins.(type) {
+		case *ssa.Call:
+			cc = v.Common()
+		case *ssa.Defer:
+			cc = v.Common()
+		default:
+			return false
+		}
+		cal := cc.StaticCallee()
+		if cal == nil {
+			return false
+		}
+		if cal.Pkg == sp && storesFalse(cal) {
+			return true
+		}
+		if cal.Name() == "Store" && cal.Signature.Recv() != nil && strings.HasSuffix(typeName(cal.Signature.Recv().Type()), "atomic.Bool") {
+			if k, isK := cc.Args[len(cc.Args)-1].(*ssa.Const); isK && k.Value != nil && k.Value.Kind() == constant.Bool && !constant.BoolVal(k.Value) {
+				return true
+			}
+		}
+		return false
+	}
+	n := 0
+	for _, fn := range allFuncs(sp) {
+		if fn.Blocks == nil || fn.Signature.Recv() == nil || !fn.Signature.Variadic() {
+			continue
+		}
+		ps := fn.Signature.Params()
+		sl, ok := ps.At(ps.Len() - 1).Type().(*types.Slice)
+		if !ok || sl.Elem().String() != "github.com/nspcc-dev/neo-go/pkg/util.Uint256" {
+			continue
+		}
+		// the tracker: its goroutines
+		for _, b := range fn.Blocks {
+			for _, ins := range b.Instrs {
+				g, isGo := ins.(*ssa.Go)
+				if !isGo {
+					continue
+				}
+				var body *ssa.Function
+				if mc, ok := g.Call.Value.(*ssa.MakeClosure); ok {
+					body, _ = mc.Fn.(*ssa.Function)
+				} else if f, ok := g.Call.Value.(*ssa.Function); ok {
+					body = f
+				}
+				if body == nil || body.Blocks == nil {
+					continue
+				}
+				n++
+				// a deferred release in the entry block covers every path
+				covered := false
+				for _, i2 := range body.Blocks[0].Instrs {
+					if _, isD := i2.(*ssa.Defer); isD && isRelease(i2) {
+						covered = true
+					}
+				}
+				bad := ""
+				if !covered {
+					seen := map[*ssa.BasicBlock]bool{}
+					work := []*ssa.BasicBlock{body.Blocks[0]}
+					for len(work) > 0 {
+						blk := work[len(work)-1]
+						work = work[:len(work)-1]
+						if seen[blk] {
+							continue
+						}
+						seen[blk] = true
+						released := false
+						for _, i2 := range blk.Instrs {
+							if isRelease(i2) {
+								released = true
+							}
+						}
+						if released {
+							continue
+						}
+						if _, isRet := blk.Instrs[len(blk.Instrs)-1].(*ssa.Return); isRet {
+							bad = w.pos(blk.Instrs[len(blk.Instrs)-1].Pos())
+							if bad == "" || bad == "?" || strings.HasPrefix(bad, "-") {
+								bad = w.pos(body.Pos())
+							}
+						}
+						work = append(work, blk.Succs...)
+					}
+				}
+				cx.decide(bad == "", "pending-released", fmt.Sprintf("deploy.%s/goroutine", fn.Name()), "every path of the waiting goroutine releases the in-flight flag", "the waiting goroutine of the tracker can end without releasing the in-flight flag (return at "+bad+"): a transaction that expires unseen leaves the step 'pending' for ever, it never sends again and the run does not end", w.pos(g.Pos()))
+			}
+		}
+	}
+	cx.count("tracker_goroutines", n)
+	cx.floor("tracker_goroutines", 1)
+}
